@@ -92,7 +92,11 @@ impl<T: Types> RaftLogWriter<T> for RaftLog<T> {
         let log_id = if index == T::next_log_index(purged) {
             purged.cloned()
         } else {
-            let log_id = self.get_log_id(index - 1)?;
+            // `index` 0 has no previous entry to keep.
+            let prev_index = index.checked_sub(1).ok_or_else(|| {
+                RaftLogStateError::<T>::from(LogIndexNotFound::new(index))
+            })?;
+            let log_id = self.get_log_id(prev_index)?;
             Some(log_id)
         };
 
